@@ -349,6 +349,7 @@ func RunC19(c *engine.Ctx) {
 		}
 		rec(nil)
 	}
+	longLived(c)
 	collisions(c)
 	overwrites(c)
 	if SeamOn() {
